@@ -277,6 +277,65 @@ func BuildBase(name string, cfg Config, seed uint32) (*Base, error) {
 		bb.put("d")
 		bb.put("e")
 		return bb.finish([]string{"a", "b", "c", "d", "e", "n"}, nil)
+	case "LCS", "LCM":
+		// long chain: every key has the same low hash byte, so all live in one chain (3 buckets) and the
+		// index grows by splitting around them; built up to the point where the NEXT new key splits
+		// bucket 0 at level 2: in LCS (low byte 0x00) all keys stay in bucket 0 and the chain is rebuilt,
+		// in LCM (low byte 0x04) all of them move to the new bucket 4.
+		low := uint32(0x00)
+		if name == "LCM" {
+			low = 0x04
+		}
+		for i := 0; i < 200 && bb.err == nil; i++ {
+			vi, err := bb.s.DB.VerifIndex()
+			if err != nil {
+				bb.err = err
+				break
+			}
+			if vi.Level == 2 && vi.SplitBucketIdx == 0 && float64(vi.NumKeys+1)/float64(vi.NumBuckets*31) > 0.7 && len(vi.Chains[0]) >= 3 {
+				break
+			}
+			r := fmt.Sprintf("l%03d", i)
+			bb.key(r, uint32(i+1)<<8|low)
+			bb.put(r)
+		}
+		if bb.err != nil {
+			return nil, bb.err
+		}
+		bb.alias("h0", bb.at(0, 0, 0))
+		bb.alias("m0", bb.at(0, 1, 0))
+		bb.alias("t0", bb.at(0, 2, 0))
+		bb.key("n0", 0x00AA0000|low)
+		bb.key("n1", 0x00BB0000|low)
+		bb.key("nz", 0x00CC0001)
+		bb.key("y", 0x00DD0002)
+		return bb.finish([]string{"h0", "m0", "t0", "n0", "n1", "nz", "y"}, []string{"l005", "l040", "l070"})
+	case "FL":
+		// non-empty free list and two chains whose head buckets are exactly full: SP, then the split
+		// (bucket 0 keeps 31 keys, its overflow bucket goes to the free list), then bucket 1 filled to 31.
+		for i := 0; i < 31; i++ {
+			bb.key(fmt.Sprintf("p%02d", i), uint32(i+1)<<8|0x00)
+		}
+		bb.key("m2", 0x00990002)
+		for i := 0; i < 31; i++ {
+			bb.key(fmt.Sprintf("q%02d", i), uint32(i+1)<<8|0x01)
+		}
+		for i := 0; i < 31; i++ {
+			bb.put(fmt.Sprintf("p%02d", i))
+		}
+		bb.put("m2")
+		for i := 0; i < 31; i++ {
+			bb.put(fmt.Sprintf("q%02d", i))
+		}
+		if bb.err != nil {
+			return nil, bb.err
+		}
+		bb.alias("h0", bb.at(0, 0, 0))
+		bb.alias("b1", bb.at(1, 0, 0))
+		bb.key("n0", 0x00660000) // new key for bucket 0 (full head: takes an overflow bucket)
+		bb.key("n1", 0x00550001) // new key for bucket 1 (full head: takes an overflow bucket)
+		bb.key("n2", 0x00770000) // second new key for bucket 0
+		return bb.finish([]string{"h0", "b1", "m2", "n0", "n1", "n2"}, []string{"p07", "p19", "q05"})
 	case "S4":
 		// ROLL: a sealed segment of three live puts (not eligible for compaction) and a current segment
 		// holding an overwritten record (eligible, no delete records): a Delete slipped in between
